@@ -350,3 +350,29 @@ package scheduler
 //@ func (*Scheduler).run$1
 //@   inline
 //@   at recv 1 ghost drained = !recvok
+
+// ---------------------------------------------------------------------------
+// C12: ownership of every field of ScheduledJob and Scheduler. Together with
+// Go's memory model for channels (a send happens before the corresponding
+// receive completes; close happens before a receive that observes it) every
+// conflicting pair of accesses is ordered: Enqueue's initialisation is
+// published by the send on enqueuec; the loop's writes of invalid happen before
+// the job is sent on readyc (obligations at the two store sites above) and the
+// worker reads it only between that receive and its send on donec; s.err is
+// published by close(finishedc), the last deferred action of the loop.
+
+//@ frame own scheduler.ScheduledJob.ctx #0 set-at-allocation: immutable after Enqueue
+//@ frame own scheduler.ScheduledJob.run #0 set-at-allocation: immutable after Enqueue
+//@ frame own scheduler.ScheduledJob.deps #0 set-at-allocation: immutable after Enqueue
+//@ frame own scheduler.ScheduledJob.remaining #0 loop-only: countdown of unfinished dependencies
+//@ frame own scheduler.ScheduledJob.consumers #0 loop-only: jobs to notify
+//@ frame own scheduler.ScheduledJob.done #0 loop-only: completion flag
+//@ frame own scheduler.ScheduledJob.err #0 loop-only: the job's error
+//@ frame own scheduler.ScheduledJob.invalid #0 loop-writes-worker-reads: written only while the job waits
+//@ frame own scheduler.Scheduler.err #0 published-by-close: read by Wait after <-finishedc
+//@ frame own scheduler.Scheduler.finishedc #0 set-at-allocation: channel
+//@ frame own scheduler.Scheduler.enqueuec #0 set-at-allocation: channel
+//@ frame own scheduler.Scheduler.readyc #0 set-at-allocation: channel
+//@ frame own scheduler.Scheduler.donec #0 set-at-allocation: channel
+//@ frame own scheduler.Scheduler.concurrency #0 set-at-allocation: configured limit
+//@ frame own scheduler.Scheduler.continueOnError #0 set-at-allocation: configured mode
